@@ -168,10 +168,241 @@ theorem C18_findCycle_iff (edges : List (Option Nat × Option Nat)) (b : Bool)
     · intro hb; cases hb
     · intro hc; exact absurd hc ((C18_dfs_complete edges).2 h)
 
+/-! ## The recorded edges and separate mode -/
+
+/-- With the fuel of `resolveImports`, the edge list handed to the cycle search is exactly the package
+    graph of the import statements of the root and of the transitively imported files. -/
+theorem C18_edges_exact (fs : FS) (root : SrcInfo) (fuel : Nat)
+    (imported : List Nat) (edges : List (Option Nat × Option Nat))
+    (h0 : fs[0]? = some root)
+    (hfuel : fuel = fs.foldl (fun n i => n + i.imports.length) 0 + root.imports.length + 1)
+    (h : worklist fs fuel (root.imports.map (fun t => (root.pkg, t))) [] [] = .ok (imported, edges)) :
+    ∀ a b, (a, b) ∈ edges ↔ PkgEdge fs a b := by
+  intro a b
+  constructor
+  · intro hab
+    exact edges_sound_gen fs fuel _ [] [] imported edges (EInv.init h0) h (a, b) hab
+  · rintro ⟨x, y, ix, iy, hl, hx, hy, hiy, rfl, rfl⟩
+    have hf : (rootWork root).length + pend fs 0 [] < fuel := by
+      rw [hfuel]; exact worklistFuel_sufficient fs root
+    have hcl := edges_complete_gen fs fuel (rootWork root) [] [] imported edges hf (ECl.init fs root h0) h
+    have hx' : x = 0 ∨ x ∈ imported := by
+      rcases hl with hl | hl
+      · exact Or.inl hl
+      · exact Or.inr ((C18_worklist_sound fs root fuel imported edges h0 hfuel h).2.2 x hl)
+    rcases hcl x ix hx' hx y hy with hw | ⟨iy', hiy', he⟩
+    · exact absurd hw List.not_mem_nil
+    · rw [hiy] at hiy'
+      injection hiy' with hiy'
+      subst hiy'
+      exact he
+
+/-- `findCycle` always answers (the recursion depth it allows is never exceeded). -/
+theorem C18_findCycle_terminates (edges : List (Option Nat × Option Nat)) : findCycle edges ≠ none :=
+  findCycle_ne_none edges
+
+/-- `findCycle` decides `HasCycle`. -/
+theorem C18_findCycle_correct (edges : List (Option Nat × Option Nat)) :
+    (findCycle edges = some true ↔ HasCycle edges) ∧ (findCycle edges = some false ↔ ¬ HasCycle edges) := by
+  cases h : findCycle edges with
+  | none => exact absurd h (findCycle_ne_none edges)
+  | some b =>
+    have hiff := C18_findCycle_iff edges b h
+    cases b with
+    | true =>
+      have hc : HasCycle edges := hiff.mp rfl
+      exact ⟨⟨fun _ => hc, fun _ => rfl⟩, ⟨fun hb => (nomatch hb), fun hn => absurd hc hn⟩⟩
+    | false =>
+      have hn : ¬ HasCycle edges := fun hc => nomatch hiff.mpr hc
+      exact ⟨⟨fun hb => (nomatch hb), fun hc => absurd hc hn⟩, ⟨fun _ => hn, fun _ => rfl⟩⟩
+
+/-- A missing file is reported (in both modes) exactly when the root or a transitively imported target
+    does not exist. -/
+theorem C18_notFound_iff (fs : FS) (sep : Bool) :
+    resolveImports fs sep = .err .notFound ↔ (fs[0]? = none ∨ ∃ t, Reachable fs t ∧ fs[t]? = none) := by
+  cases h0 : fs[0]? with
+  | none => exact ⟨fun _ => Or.inl rfl, fun _ => resolve_root_none fs sep h0⟩
+  | some root =>
+    by_cases he : root.imports = []
+    · rw [resolve_no_imports fs sep root h0 he]
+      constructor
+      · intro h; cases h
+      · rintro (h | ⟨t, ht, _⟩)
+        · cases h
+        · exact absurd ht (no_reachable fs root h0 he t)
+    · cases hw : worklist fs (fs.foldl (fun n i => n + i.imports.length) 0 + root.imports.length + 1)
+          (root.imports.map (fun t => (root.pkg, t))) [] [] with
+      | error e =>
+        obtain ⟨he1, t, ht, hn⟩ := C18_worklist_error fs root _ e h0 hw
+        rw [resolve_wl_error fs sep root e h0 he hw, he1]
+        exact ⟨fun _ => Or.inr ⟨t, ht, hn⟩, fun _ => rfl⟩
+      | ok r =>
+        obtain ⟨imported, edges⟩ := r
+        obtain ⟨_, h2, h3⟩ := C18_worklist_sound fs root _ imported edges h0 rfl hw
+        constructor
+        · intro h
+          exfalso
+          cases sep with
+          | true =>
+            cases hc : findCycle edges with
+            | none => exact findCycle_ne_none edges hc
+            | some b =>
+              cases b with
+              | true => rw [resolve_sep_cycle fs root imported edges h0 he hw hc] at h; cases h
+              | false =>
+                rw [resolve_sep_nocycle fs root imported edges h0 he hw hc] at h
+                split at h <;> cases h
+          | false =>
+            unfold resolveImports at h
+            have he' : root.imports.isEmpty = false := by
+              cases hh : root.imports with
+              | nil => exact absurd hh he
+              | cons _ _ => rfl
+            simp only [h0, he', hw] at h
+            simp only [Bool.false_eq_true, if_false] at h
+            split at h <;> cases h
+        · rintro (h | ⟨t, ht, hn⟩)
+          · cases h
+          · have := (h2 t (h3 t ht)).2
+            rw [hn] at this
+            cases this
+
+/-- Separate mode reports an import cycle exactly when everything resolves and the package graph of the
+    live files has a cycle. -/
+theorem C18_separate_cycle_iff (fs : FS) :
+    resolveImports fs true = .err .cycle ↔
+      (fs[0]?.isSome ∧ (∀ t, Reachable fs t → fs[t]?.isSome) ∧ ∃ n, PkgPath fs n n) := by
+  cases h0 : fs[0]? with
+  | none =>
+    rw [resolve_root_none fs true h0]
+    constructor
+    · intro h; cases h
+    · rintro ⟨h, _⟩; cases h
+  | some root =>
+    by_cases he : root.imports = []
+    · rw [resolve_no_imports fs true root h0 he]
+      constructor
+      · intro h; cases h
+      · rintro ⟨_, _, n, hn⟩
+        exfalso
+        obtain ⟨c, x, y, ix, iy, hl, hx, hy, _⟩ := hn.head_edge
+        rcases hl with hl | hl
+        · subst hl
+          rw [h0] at hx; injection hx with hx; subst hx
+          rw [he] at hy; exact absurd hy List.not_mem_nil
+        · exact no_reachable fs root h0 he x hl
+    · cases hw : worklist fs (fs.foldl (fun n i => n + i.imports.length) 0 + root.imports.length + 1)
+          (root.imports.map (fun t => (root.pkg, t))) [] [] with
+      | error e =>
+        obtain ⟨he1, t, ht, hn⟩ := C18_worklist_error fs root _ e h0 hw
+        rw [resolve_wl_error fs true root e h0 he hw, he1]
+        constructor
+        · intro h; cases h
+        · rintro ⟨_, hall, _⟩
+          have := hall t ht
+          rw [hn] at this
+          cases this
+      | ok r =>
+        obtain ⟨imported, edges⟩ := r
+        obtain ⟨_, h2, h3⟩ := C18_worklist_sound fs root _ imported edges h0 rfl hw
+        have hex := C18_edges_exact fs root _ imported edges h0 rfl hw
+        have hcyc : HasCycle edges ↔ ∃ n, PkgPath fs n n :=
+          ⟨fun ⟨n, hn⟩ => ⟨n, (path_iff_pkgPath hex n n).mp hn⟩,
+           fun ⟨n, hn⟩ => ⟨n, (path_iff_pkgPath hex n n).mpr hn⟩⟩
+        obtain ⟨hct, hcf⟩ := C18_findCycle_correct edges
+        cases hc : findCycle edges with
+        | none => exact absurd hc (findCycle_ne_none edges)
+        | some b =>
+          cases b with
+          | true =>
+            rw [resolve_sep_cycle fs root imported edges h0 he hw hc]
+            exact ⟨fun _ => ⟨rfl, fun t ht => (h2 t (h3 t ht)).2, hcyc.mp (hct.mp hc)⟩, fun _ => rfl⟩
+          | false =>
+            rw [resolve_sep_nocycle fs root imported edges h0 he hw hc]
+            constructor
+            · intro h; split at h <;> cases h
+            · rintro ⟨_, _, hn⟩
+              exact absurd (hcyc.mpr hn) (hcf.mp hc)
+
+/-- Separate mode: a successful result is the root followed by exactly the transitively imported files,
+    without repetition; the package graph has no cycle and every imported file has a go_package. -/
+theorem C18_separate_ok (fs : FS) (files : List Nat) (h : resolveImports fs true = .ok files) :
+    files.head? = some 0 ∧ files.Nodup ∧ (∀ t, t ∈ files ↔ (t = 0 ∨ Reachable fs t)) ∧
+    (¬ ∃ n, PkgPath fs n n) ∧
+    (∀ t, Reachable fs t → ∃ i p, fs[t]? = some i ∧ i.pkg = some p) := by
+  cases h0 : fs[0]? with
+  | none => rw [resolve_root_none fs true h0] at h; cases h
+  | some root =>
+    by_cases he : root.imports = []
+    · rw [resolve_no_imports fs true root h0 he] at h
+      injection h with h
+      subst h
+      have hno := no_reachable fs root h0 he
+      refine ⟨rfl, by simp, ?_, ?_, fun t ht => absurd ht (hno t)⟩
+      · intro t
+        simp only [List.mem_singleton]
+        exact ⟨Or.inl, fun h => h.elim id (fun hr => absurd hr (hno t))⟩
+      · rintro ⟨n, hn⟩
+        obtain ⟨c, x, y, ix, iy, hl, hx, hy, _⟩ := hn.head_edge
+        rcases hl with hl | hl
+        · subst hl
+          rw [h0] at hx; injection hx with hx; subst hx
+          rw [he] at hy; exact absurd hy List.not_mem_nil
+        · exact hno x hl
+    · cases hw : worklist fs (fs.foldl (fun n i => n + i.imports.length) 0 + root.imports.length + 1)
+          (root.imports.map (fun t => (root.pkg, t))) [] [] with
+      | error e => rw [resolve_wl_error fs true root e h0 he hw] at h; cases h
+      | ok r =>
+        obtain ⟨imported, edges⟩ := r
+        obtain ⟨h1, h2, h3⟩ := C18_worklist_sound fs root _ imported edges h0 rfl hw
+        have hex := C18_edges_exact fs root _ imported edges h0 rfl hw
+        cases hc : findCycle edges with
+        | none => exact absurd hc (findCycle_ne_none edges)
+        | some b =>
+          cases b with
+          | true => rw [resolve_sep_cycle fs root imported edges h0 he hw hc] at h; cases h
+          | false =>
+            rw [resolve_sep_nocycle fs root imported edges h0 he hw hc] at h
+            have hnc : ¬ ∃ n, PkgPath fs n n := by
+              rintro ⟨n, hn⟩
+              exact (C18_dfs_complete edges).2 hc ⟨n, (path_iff_pkgPath hex n n).mpr hn⟩
+            split at h
+            · cases h
+            · rename_i hany
+              injection h with h
+              subst h
+              have h0n : 0 ∉ imported := by
+                intro hm
+                exact hnc ⟨root.pkg, reachable_pkgPath fs root h0 0 (h2 0 hm).1 root h0⟩
+              refine ⟨rfl, List.nodup_cons.mpr ⟨h0n, h1⟩, ?_, hnc, ?_⟩
+              · intro t
+                simp only [List.mem_cons]
+                constructor
+                · rintro (h | h)
+                  · exact Or.inl h
+                  · exact Or.inr (h2 t h).1
+                · rintro (h | h)
+                  · exact Or.inl h
+                  · exact Or.inr (h3 t h)
+              · intro t ht
+                have htm := h3 t ht
+                have hany' : imported.any (fun i => (fs[i]?.bind (·.pkg)).isNone) = false := by
+                  cases hb : imported.any (fun i => (fs[i]?.bind (·.pkg)).isNone) with
+                  | false => rfl
+                  | true => exact absurd hb hany
+                rw [List.any_eq_false] at hany'
+                have hp := hany' t htm
+                cases hi : fs[t]? with
+                | none => rw [hi] at hp; simp at hp
+                | some i =>
+                  cases hpk : i.pkg with
+                  | none => rw [hi] at hp; simp [hpk] at hp
+                  | some p => exact ⟨i, p, rfl, hpk⟩
+
 /-! ## C. Termination -/
 
-/-- Combined mode never runs out of fuel (only the cycle search of separate mode is fuel-bounded in
-    a way that is visible in the outcome). Nothing is claimed here for separate mode. -/
+/-- Combined mode never runs out of fuel; immediate from the definition (only the cycle search of separate
+    mode can produce `.fuel`). Superseded by `C18_terminates` below, which covers both modes. -/
 theorem C18_terminates_partial (fs : FS) : resolveImports fs false ≠ .fuel := by
   unfold resolveImports
   split
@@ -183,5 +414,69 @@ theorem C18_terminates_partial (fs : FS) : resolveImports fs false ≠ .fuel := 
       · intro h; cases h
       · simp only [Bool.false_eq_true, if_false]
         split <;> (intro h; cases h)
+
+/-- `resolveImports` never reports that the model ran out of fuel, in either mode. (That the worklist
+    fuel is also *sufficient*, i.e. the worklist really ran to completion, is part of
+    `C18_worklist_sound`.) -/
+theorem C18_terminates (fs : FS) (sep : Bool) : resolveImports fs sep ≠ .fuel := by
+  cases sep with
+  | false => exact C18_terminates_partial fs
+  | true =>
+    unfold resolveImports
+    split
+    · intro h; cases h
+    · split
+      · intro h; cases h
+      · simp only
+        split
+        · intro h; cases h
+        · simp only [if_true]
+          split
+          · rename_i hc; exact absurd hc (findCycle_ne_none _)
+          · intro h; cases h
+          · split <;> (intro h; cases h)
+
+/-! ## D. Non-vacuity -/
+
+section Examples
+
+/-- A diamond: 0 imports 1 and 2, both import 3. -/
+def c18Diamond : FS := [⟨some 0, [1, 2]⟩, ⟨some 1, [3]⟩, ⟨some 2, [3]⟩, ⟨some 3, []⟩]
+
+/-- Two files importing each other. -/
+def c18Cycle : FS := [⟨some 0, [1]⟩, ⟨some 1, [0]⟩]
+
+example : resolveImports c18Diamond false = .ok [0, 1, 2, 3] := by rfl
+example : resolveImports c18Cycle false = .err .validate := by rfl
+example : resolveImports [⟨some 0, [1, 5]⟩, ⟨some 1, []⟩] false = .err .notFound := by rfl
+
+example : worklist c18Diamond 5 [(some 0, 1), (some 0, 2)] [] [] =
+    .ok ([1, 2, 3], [(some 0, some 1), (some 0, some 2), (some 1, some 3), (some 2, some 3)]) := by rfl
+
+example : worklist c18Cycle 4 [(some 0, 1)] [] [] =
+    .ok ([1, 0], [(some 0, some 1), (some 1, some 0), (some 0, some 1)]) := by rfl
+
+/-- Separate mode on the 2-cycle: the cycle search finds `some 0 → some 1 → some 0`. -/
+example : resolveImports c18Cycle true = .err .cycle := by
+  apply resolve_sep_cycle c18Cycle ⟨some 0, [1]⟩ [1, 0]
+    [(some 0, some 1), (some 1, some 0), (some 0, some 1)] rfl (by simp) rfl
+  exact (C18_findCycle_correct _).1.mpr
+    ⟨some 0, Path.cons (b := some 1) (by simp [Edge]) (Path.single (by simp [Edge]))⟩
+
+/-- Separate mode on the diamond: no cycle, every file has a package. -/
+example : resolveImports c18Diamond true = .ok [0, 1, 2, 3] := by
+  rw [resolve_sep_nocycle c18Diamond ⟨some 0, [1, 2]⟩ [1, 2, 3]
+    [(some 0, some 1), (some 0, some 2), (some 1, some 3), (some 2, some 3)] rfl (by simp) rfl]
+  · rfl
+  · exact (C18_findCycle_correct _).2.mpr (no_cycle_of_rank _ (fun o => o.getD 0) (by decide))
+
+/-- A transitively imported file without go_package is rejected in separate mode. -/
+example : resolveImports [⟨some 0, [1]⟩, ⟨none, []⟩] true = .err .noPkg := by
+  rw [resolve_sep_nocycle _ ⟨some 0, [1]⟩ [1] [(some 0, none)] rfl (by simp) rfl]
+  · rfl
+  · exact (C18_findCycle_correct _).2.mpr
+      (no_cycle_of_rank _ (fun o => match o with | none => 1 | some _ => 0) (by decide))
+
+end Examples
 
 end Bebop.Text
